@@ -32,7 +32,7 @@ def failed_set(tree):
 def main():
     ap = argparse.ArgumentParser()
     ap.add_argument('src'); ap.add_argument('pid'); ap.add_argument('name')
-    ap.add_argument('--checks', default=None); ap.add_argument('--tier', default='quick'); ap.add_argument('--skip-pytest', action='store_true')
+    ap.add_argument('--checks', default=None); ap.add_argument('--tier', default='quick'); ap.add_argument('--skip-pytest', action='store_true'); ap.add_argument('--skip-baseline', action='store_true')
     a = ap.parse_args()
     checks = a.checks.split(',') if a.checks else [a.pid]
     scratch = tempfile.mkdtemp(prefix='seed.', dir='/dev/shm')
@@ -61,8 +61,9 @@ def main():
             print(f'own tests: clean [{s0}] patched [{s1}] same failed set: {f0 == f1}')
             if f0 != f1:
                 meta['own_tests_new_failures'] = sorted(set(f1) - set(f0))
-        base = subprocess.run([PY, '-m', 'pytest', '-q', '-p', 'no:cacheprovider', '--timeout=900', '--continue-on-collection-errors'], cwd=patched, capture_output=True, text=True)
-        meta['pinned_baseline_patched'] = (re.findall(r'(\d+ failed.*|\d+ passed.*)', base.stdout) or ['?'])[-1]
+        if not a.skip_baseline:
+            base = subprocess.run([PY, '-m', 'pytest', '-q', '-p', 'no:cacheprovider', '--timeout=900', '--continue-on-collection-errors'], cwd=patched, capture_output=True, text=True)
+            meta['pinned_baseline_patched'] = (re.findall(r'(\d+ failed.*|\d+ passed.*)', base.stdout) or ['?'])[-1]
         os.makedirs(scratch + '/ev')
         meta['checks'] = {}
         for c in checks:
@@ -84,13 +85,16 @@ def finish(a, meta, keep):
         dst = os.path.join(HERE, 'seeded', a.name)
         os.makedirs(dst, exist_ok=True)
         for f in ('patch.diff', 'demo.py', 'notes.md'):
-            if os.path.exists(os.path.join(a.src, f)):
+            if os.path.exists(os.path.join(a.src, f)) and os.path.realpath(os.path.join(a.src, f)) != os.path.realpath(os.path.join(dst, f)):
                 shutil.copy(os.path.join(a.src, f), os.path.join(dst, f))
         old = {}
         if os.path.exists(os.path.join(dst, 'meta.json')):
             old = json.load(open(os.path.join(dst, 'meta.json')))
             for k, v in old.get('checks', {}).items():
                 meta.setdefault('checks', {}).setdefault(k, v)
+            for k, v in old.items():
+                if k not in meta:
+                    meta[k] = v           # fields confirmed by an earlier, fuller run (own tests, pinned baseline, needs, history, ...)
         json.dump(meta, open(os.path.join(dst, 'meta.json'), 'w'), indent=1)
     print('KEPT' if keep else 'NOT KEPT', json.dumps({k: v for k, v in meta.items() if k != 'checks'})[:400])
     return 0 if keep else 2
